@@ -131,6 +131,36 @@ def audit_solve(ctx, run, k, s):
     # independent solver agrees?
     if zh is not None and abs(zh - z) > GAP * scale:
         ctx.count("highs-differs-from-cbc-beyond-1e-4")
+    # the LP the code built differs from the model's: judge the reported value against the MODEL's LP
+    # (= the physical allocation problem, by lp_optimum_is_true_optimum / feed_optimum_is_true_optimum)
+    if diffs:
+        sense = {"le": -1, "eq": 0, "ge": 1}
+        spec_rows = {n: (co, sense[rel], const) for n, (co, rel, const) in mrows.items()}
+        st2, z2, x2, y2 = highs(spec_rows, {"Objective_To_Optimize": 1.0})
+        ctx.count("spec-lp-solved")
+        if st2 == 0:
+            scale2 = max(1.0, abs(z2))
+            if z2 > z + GAP * scale2:
+                po = wire.run_driver(["cert.primal %s %s %d %s" % (s.kind, enc, len(x2), " ".join("%s %s" % (enc_str(a), f2b(b)) for a, b in x2.items()))],
+                                     exe_name=DRIVER)[0].split()
+                worst, obj = wire.b2f(po[0]), wire.b2f(po[1])
+                if worst <= 1e-6 * max(1.0, inp["billionKcalsNeeded"]):
+                    ctx.violation("below-true-optimum", "%s round %d: the round reports %r, but a physically feasible allocation (feasible for the specification LP, worst exact row "
+                                  "violation %.3g) achieves %r" % (run.iso, k + 1, z, worst, obj), dict(case, reported=z, achievable=obj, worst_row_violation=worst,
+                                                                                                          differing_rows=[d[0] for d in diffs[:5]]))
+            elif z > z2 + GAP * scale2:
+                # certify the bound exactly with the spec LP's own duals
+                yv2 = []
+                for name, (co, rel, const) in mrows.items():
+                    v = y2.get(name, 0.0)
+                    if abs(v) < 1e-13 or (rel == "le" and v < 0) or (rel == "ge" and v > 0):
+                        v = 0.0
+                    yv2.append(v)
+                out2 = wire.run_driver(["cert.bound %s %s %s" % (s.kind, enc, fl(yv2))], exe_name=DRIVER)[0].split()
+                if out2[1] == "some" and z > wire.b2f(out2[2]) + GAP * scale2:
+                    ctx.violation("above-true-optimum", "%s round %d: the round reports %r, but no physically feasible allocation achieves more than %r (certified upper bound of the "
+                                  "specification LP)" % (run.iso, k + 1, z, wire.b2f(out2[2])), dict(case, reported=z, certified_bound=wire.b2f(out2[2]),
+                                                                                                      differing_rows=[d[0] for d in diffs[:5]]))
 
 
 def explore(ctx, ps):
@@ -158,7 +188,7 @@ def correspondence(ctx):
 
 def search(ctx):
     isos = sorted(pipeline.country_rows())
-    explore(ctx, [lpcheck.random_preset(ctx.rng, isos) for _ in range(5)])
+    explore(ctx, list(lpcheck.PRESETS_SEARCH) + [lpcheck.random_preset(ctx.rng, isos) for _ in range(3)])
 
 
 def replay(ctx, rep):
